@@ -289,7 +289,7 @@ def tricore_extr(obj, c, d, a):
     obj.type = type_data_processing
 
 @ispec("32<[ c(4) {08} -- 00 ---- a(4) {4b} ]", mnemonic="UNPACK")
-def tricore_extr(obj, c, d, a):
+def tricore_extr(obj, c, a):
     src = env.D[a]
     dst = getE(obj, c)
     obj.operands = [dst, src]
@@ -297,7 +297,7 @@ def tricore_extr(obj, c, d, a):
 
 @ispec("32<[ c(4) {02} -- 00 ---- a(4) {4b} ]", mnemonic="PARITY")
 @ispec("32<[ c(4) {22} -- 00 ---- a(4) {4b} ]", mnemonic="POPCNT_W")
-def tricore_extr(obj, c, d, a):
+def tricore_extr(obj, c, a):
     src = env.D[a]
     dst = env.D[c]
     obj.operands = [dst, src]
